@@ -24,6 +24,10 @@ static coap_proto_t proto_of(const char *s) {
   if (!strcmp(s, "udp")) return COAP_PROTO_UDP;
   if (!strcmp(s, "tcp")) return COAP_PROTO_TCP;
   if (!strcmp(s, "ws")) return COAP_PROTO_WS;
+  /* the secured transports use the framing of their plain counterparts (RFC 7252 §9, RFC 8323 §3, §8) */
+  if (!strcmp(s, "dtls")) return COAP_PROTO_DTLS;
+  if (!strcmp(s, "tls")) return COAP_PROTO_TLS;
+  if (!strcmp(s, "wss")) return COAP_PROTO_WSS;
   return COAP_PROTO_NONE;
 }
 
@@ -53,7 +57,7 @@ static void dump_pdu(const coap_pdu_t *pdu) {
 /* what reaches the protocol layer for one received unit, parsed into pdu */
 static int parse_into(coap_proto_t proto, const uint8_t *data, size_t len, coap_pdu_t *pdu) {
   int ok = 0;
-  if (proto == COAP_PROTO_TCP) {
+  if (proto == COAP_PROTO_TCP || proto == COAP_PROTO_TLS) {
     /* the framing arithmetic of coap_read_session(): the input must be exactly one frame */
     if (len >= 1) {
       size_t hdr_size = coap_pdu_parse_header_size(proto, data);
